@@ -71,7 +71,7 @@ def build(case):
     nobreak = (lambda: False)
     if k == "PowerMethod":
         B = _mat(seed, n, max(1, n - case.get("rankdef", 0)), cplx)
-        H = B @ B.conj().T
+        H = (B @ B.conj().T) * case.get("scale", 1.0)      # overall magnitude of the operator (exact power of two)
         x = _vec(seed, n, cplx).astype(dt)
         if not np.abs(H @ x).any():
             x = (B[:, 0] + 0).astype(dt)
@@ -368,6 +368,7 @@ def st_instance(draw, kinds=ALG_KINDS, max_iter=st.integers(0, 12)):
     if k == "PowerMethod":
         c["rankdef"] = draw(st.integers(0, 2))
         c["norm_func"] = draw(st.booleans())
+        c["scale"] = draw(st.sampled_from([1.0, 1.0, 2.0 ** -40, 2.0 ** 40]))
     if k == "GradientMethod":
         c.update(g=draw(st.sampled_from(["none", "l1", "l1", "box", "box"])), accelerate=draw(st.booleans()),
                  c=draw(st.sampled_from([1.0, 0.5, 0.25, 0.125])), mu=draw(st.sampled_from([0.25, 1.0, 4.0, 16.0])),
@@ -505,7 +506,8 @@ def check_early(case):
 def st_power(draw):
     return {"alg": "PowerMethod", "max_iter": draw(st.integers(2, 30)), "seed": draw(st.integers(0, 10 ** 6)),
             "n": draw(st.integers(1, 6)), "cplx": draw(st.booleans()), "rankdef": draw(st.integers(0, 3)),
-            "norm_func": draw(st.booleans())}
+            "norm_func": draw(st.booleans()),
+            "scale": draw(st.sampled_from([1.0, 1.0, 1.0, 2.0 ** -40, 2.0 ** 40, 2.0 ** -100, 2.0 ** 100]))}
 
 
 def check_power(case):
@@ -529,6 +531,8 @@ def check_power(case):
     if est:
         r.check(np.isfinite(est[-1]), "power:non-finite", "estimate %s" % est[-1])
     r.label("rankdef%d" % case["rankdef"], "cplx" if case["cplx"] else "real")
+    if case.get("scale", 1.0) != 1.0:
+        r.label("scale:2^%d" % int(round(np.log2(case["scale"]))))
     r.nontrivial = case["n"] >= 2 and len(est) >= 3
     r.sig = _sig(case)
     return r
